@@ -129,6 +129,10 @@ func c16ExtraScripts() [][]byte {
 	}
 	out := [][]byte{{0x4d}, {0x4d, 0x01}, {0x4e}, {0x4e, 0x01}, {0x4e, 0x01, 0x02}, {0x4e, 0x01, 0x02, 0x03}, {0x6a, 0x4e, 0x01, 0x02, 0x03},
 		{0x05, 0x01}, {0x4c, 0x05, 0x01}, {0x4d, 0x05, 0x00, 0x01}, {0x4e, 0x05, 0x00, 0x00, 0x00, 0x01}, {0x00, 0x6a, 0x4d, 0x01}}
+	// multisig-shaped scripts whose counts do not match the keys present
+	k33 := append([]byte{0x21, 0x02}, bytes.Repeat([]byte{0x11}, 32)...)
+	out = append(out, []byte{0x00, 0x00, 0xae}, []byte{0x51, 0x60, 0xae}, []byte{0x51, 0x51, 0xae}, bytesJoin([]byte{0x51}, k33, []byte{0x55, 0xae}),
+		bytesJoin([]byte{0x52}, k33, []byte{0x51, 0xae}), bytesJoin([]byte{0x60}, k33, k33, []byte{0x60, 0xae}), bytesJoin([]byte{0x00}, k33, []byte{0x51, 0xae}))
 	t := c14Templates()["inscription"]
 	toks, _ := refTokenize(t)
 	for _, tk := range toks {
@@ -407,7 +411,7 @@ func c16Boundary() []uint64 {
 
 func init() {
 	p := register(&Prop{ID: "C16", Level: "exploration",
-		Rule: "exhaustive: (amounts) every amount 0..2,000,000 (quick) / 0..100,000,000 (thorough) and ~8,300 decimal-boundary amounts up to 21e14 through Output and UTXO in both JSON dialects (marshal -> unmarshal -> equal satoshis/script/txid/vout); (transactions) product of shapes nIn 0..3 x nOut 0..3 x signing state {unsigned(nil scripts), first input only, all, empty scripts} x 52 output-script kinds (P2PKH, empty, data with pushes of 1..5 bytes, multisig, inscription, odd pushes, 300 bytes, 12 scripts that end inside a push: every partial PUSHDATA1/2/4 length field and short payloads, and the inscription template with each token replaced by an empty PUSHDATA1 / PUSHDATA4 push) x boundary amounts x version/locktime values, each marshalled as Tx (library and node dialect), Txs list (node), []*Tx, per-output Output (both), UTXOs list (node) and []*UTXO, a Tx variable decoded into twice (both dialects), the node-dialect lists also decoded into a list variable that was decoded into before (shorter, longer and empty lists): marshal must return (value or error, no panic) and the unmarshalled object must have identical Bytes()/TxID/scripts/satoshis. distinct_nontrivial = distinct amounts + distinct transaction serialisations round-tripped",
+		Rule: "exhaustive: (amounts) every amount 0..2,000,000 (quick) / 0..100,000,000 (thorough) and ~8,300 decimal-boundary amounts up to 21e14 through Output and UTXO in both JSON dialects (marshal -> unmarshal -> equal satoshis/script/txid/vout); (transactions) product of shapes nIn 0..3 x nOut 0..3 x signing state {unsigned(nil scripts), first input only, all, empty scripts} x 59 output-script kinds (7 multisig-shaped scripts whose counts do not match their keys, P2PKH, empty, data with pushes of 1..5 bytes, multisig, inscription, odd pushes, 300 bytes, 12 scripts that end inside a push: every partial PUSHDATA1/2/4 length field and short payloads, and the inscription template with each token replaced by an empty PUSHDATA1 / PUSHDATA4 push) x boundary amounts x version/locktime values, each marshalled as Tx (library and node dialect), Txs list (node), []*Tx, per-output Output (both), UTXOs list (node) and []*UTXO, a Tx variable decoded into twice (both dialects), the node-dialect lists also decoded into a list variable that was decoded into before (shorter, longer and empty lists): marshal must return (value or error, no panic) and the unmarshalled object must have identical Bytes()/TxID/scripts/satoshis. distinct_nontrivial = distinct amounts + distinct transaction serialisations round-tripped",
 	})
 	sA := NewSpace(p, "amounts", c16AmtCheck)
 	sT := NewSpace(p, "transactions", c16TxCheck)
